@@ -43,8 +43,9 @@ class FakeTCPClient(BaseComponent):
         self.out = []
 
     @handler('write')
-    def _on_write(self, data):
-        self.out.append((None, bytes(data)))
+    def _on_write(self, data, *extra):
+        if isinstance(data, (bytes, bytearray)):    # a peer can make the victim fire any event, also a junk `write`
+            self.out.append((None, bytes(data)))
 
 
 class FakeTCPServer(BaseComponent):
@@ -57,8 +58,9 @@ class FakeTCPServer(BaseComponent):
         self.out = []
 
     @handler('write')
-    def _on_write(self, sock, data):
-        self.out.append((sock, bytes(data)))
+    def _on_write(self, sock=None, data=None, *extra):
+        if isinstance(data, (bytes, bytearray)):
+            self.out.append((sock, bytes(data)))
 
 
 def install():
